@@ -18,217 +18,16 @@
 (* against the design theorems below and printed as one implementation     *)
 (* test whose expected outputs were computed here.                         *)
 (***************************************************************************)
-EXTENDS Integers, Sequences, FiniteSets, TLC, Json
+EXTENDS Integers, Sequences, FiniteSets, TLC, Json, CombDefs
 
 CONSTANTS Shapes,      \* base shapes of leaves (sequences of extents)
           MaxDepth,    \* number of wraps
           MaxSize,     \* bound on the number of array elements of a program
-          AsFound,     \* BOOLEAN: declared-shape formulas as found at the pinned commit (Python slice semantics)
           EmitCases
 
 VARIABLES p, depth, res    \* res: everything computed for p, once (TLC would re-evaluate definitions per use)
 vars == <<p, depth, res>>
 
-U == 1024
-None == <<-1>>          \* "no condition shape"
-
-\* ---- arrays ----------------------------------------------------------------------------------------------------
-RECURSIVE Prod(_)
-Prod(s) == IF s = <<>> THEN 1 ELSE s[1] * Prod(Tail(s))
-Stride(s, a) == Prod(SubSeq(s, a + 1, Len(s)))                      \* a: 1-based axis
-CoordAt(k, s, a) == (k \div Stride(s, a)) % s[a]                    \* k: 0-based flat position
-Iota(n) == [k \in 1..n |-> k - 1]
-\* flat positions (increasing = C order of the sub-array) whose coordinate on axis a lies in lo..hi-1
-SelAxis(s, a, lo, hi) == SelectSeq(Iota(Prod(s)), LAMBDA k : lo <= CoordAt(k, s, a) /\ CoordAt(k, s, a) < hi)
-Gather(x, sel) == [j \in 1..Len(sel) |-> x[sel[j] + 1]]
-NormAxis(a, rank) == IF a < 0 THEN a + rank ELSE a                  \* 0-based, Python style
-ReplaceAt(s, a, v) == [i \in 1..Len(s) |-> IF i = a THEN v ELSE s[i]]
-RemoveAt(s, a) == SubSeq(s, 1, a - 1) \o SubSeq(s, a + 1, Len(s))
-InsertAt(s, a, v) == SubSeq(s, 1, a - 1) \o <<v>> \o SubSeq(s, a, Len(s))    \* v becomes element a (1-based)
-RECURSIVE SumSeq(_)
-SumSeq(s) == IF s = <<>> THEN 0 ELSE s[1] + SumSeq(Tail(s))
-RECURSIVE Pow2(_)
-Pow2(n) == IF n = 0 THEN 1 ELSE 2 * Pow2(n - 1)
-
-\* ---- leaves ------------------------------------------------------------------------------------------------------
-AffE(id, k) == (id + k) % 3
-AffB(id, k) == U * (5 * id + k + 1)
-CW(id, k, m) == ((k + 2 * m + id) % 4) + 1
-EmbW(m, r) == ((m + r) % 2) + 1
-
-\* ---- shapes by definition ------------------------------------------------------------------------------------------
-RECURSIVE SemShape(_), SemCond(_)
-MergeCond(cs) == LET some == {c \in cs : c # None} IN IF some = {} THEN None ELSE CHOOSE c \in some : TRUE
-PartialSelShape(idx, s) ==
-  CASE idx.kind = "int" -> Tail(s)
-    [] idx.kind = "slice" -> <<idx.hi - idx.lo>> \o Tail(s)
-    [] idx.kind = "intarr" -> <<Len(idx.rows)>> \o Tail(s)
-    [] idx.kind = "boolarr" -> <<Len(idx.rows)>> \o Tail(s)
-    [] idx.kind = "tuple" -> SubSeq(s, 3, Len(s))
-SemShape(q) ==
-  CASE q.k \in {"aff", "cadd", "perm", "flip", "ident", "scan"} -> q.shape
-    [] q.k = "chain" -> SemShape(q.parts[1])
-    [] q.k = "invert" -> SemShape(q.p)
-    [] q.k = "vmap" -> <<q.n>> \o SemShape(q.p)
-    [] q.k = "concat" -> LET s1 == SemShape(q.parts[1])
-                             a == NormAxis(q.axis, Len(s1)) + 1
-                         IN ReplaceAt(s1, a, SumSeq([i \in 1..Len(q.parts) |-> SemShape(q.parts[i])[a]]))
-    [] q.k = "stack" -> LET s1 == SemShape(q.parts[1])
-                            a == NormAxis(q.axis, Len(s1) + 1) + 1         \* like jnp.stack: against rank + 1
-                        IN InsertAt(s1, a, Len(q.parts))
-    [] q.k = "partial" -> q.shape
-    [] q.k = "reshape" -> q.shape
-    [] q.k = "embed" -> SemShape(q.p)
-SemCond(q) ==
-  CASE q.k \in {"aff", "perm", "flip", "ident", "scan"} -> None
-    [] q.k = "cadd" -> q.cs
-    [] q.k = "chain" -> MergeCond({SemCond(q.parts[i]) : i \in 1..Len(q.parts)})
-    [] q.k = "invert" -> SemCond(q.p)
-    [] q.k = "vmap" -> LET c == SemCond(q.p) IN
-                       IF c = None \/ q.cax = -9 THEN c
-                       ELSE InsertAt(c, NormAxis(q.cax, Len(c) + 1) + 1, q.n)
-    [] q.k \in {"concat", "stack"} -> MergeCond({SemCond(q.parts[i]) : i \in 1..Len(q.parts)})
-    [] q.k = "partial" -> SemCond(q.p)
-    [] q.k = "reshape" -> IF q.cs = None THEN SemCond(q.p) ELSE q.cs
-    [] q.k = "embed" -> q.rawcs
-
-\* ---- shapes as the constructors declare them ---------------------------------------------------------------------
-PySliceTo(s, a) == IF a >= 0 THEN SubSeq(s, 1, IF a < Len(s) THEN a ELSE Len(s))
-                   ELSE SubSeq(s, 1, IF Len(s) + a > 0 THEN Len(s) + a ELSE 0)
-PySliceFrom(s, a) == IF a >= 0 THEN SubSeq(s, (IF a < Len(s) THEN a ELSE Len(s)) + 1, Len(s))
-                     ELSE SubSeq(s, (IF Len(s) + a > 0 THEN Len(s) + a ELSE 0) + 1, Len(s))
-RECURSIVE DeclShape(_), DeclCond(_)
-DeclShape(q) ==
-  CASE q.k = "stack" -> LET s1 == DeclShape(q.parts[1]) IN
-                        IF AsFound THEN PySliceTo(s1, q.axis) \o <<Len(q.parts)>> \o PySliceFrom(s1, q.axis)
-                        ELSE InsertAt(s1, NormAxis(q.axis, Len(s1) + 1) + 1, Len(q.parts))
-    [] q.k = "vmap" -> <<q.n>> \o DeclShape(q.p)
-    [] q.k = "chain" -> DeclShape(q.parts[1])
-    [] q.k \in {"invert", "embed"} -> DeclShape(q.p)
-    [] OTHER -> SemShape(q)
-DeclCond(q) ==
-  CASE q.k = "vmap" -> LET c == DeclCond(q.p) IN
-                       IF c = None \/ q.cax = -9 THEN c
-                       ELSE IF AsFound THEN PySliceTo(c, q.cax) \o <<q.n>> \o PySliceFrom(c, q.cax)
-                       ELSE InsertAt(c, NormAxis(q.cax, Len(c) + 1) + 1, q.n)
-    [] q.k = "invert" -> DeclCond(q.p)
-    [] q.k = "partial" -> DeclCond(q.p)
-    [] OTHER -> SemCond(q)
-
-\* ---- semantics ---------------------------------------------------------------------------------------------------
-\* selection of Partial: flat positions in the order of x[idxs]
-PartialSel(idx, s) ==
-  CASE idx.kind = "int" -> SelAxis(s, 1, NormAxis(idx.i, s[1]), NormAxis(idx.i, s[1]) + 1)
-    [] idx.kind = "slice" -> SelAxis(s, 1, idx.lo, idx.hi)
-    [] idx.kind \in {"intarr", "boolarr"} ->
-         LET blocks == [j \in 1..Len(idx.rows) |-> SelAxis(s, 1, idx.rows[j], idx.rows[j] + 1)]
-             bl == Prod(Tail(s))
-         IN [t \in 1..(Len(idx.rows) * bl) |-> blocks[((t - 1) \div bl) + 1][((t - 1) % bl) + 1]]
-    [] idx.kind = "tuple" -> SelectSeq(Iota(Prod(s)), LAMBDA k : CoordAt(k, s, 1) = idx.i /\ CoordAt(k, s, 2) = idx.j)
-
-RECURSIVE Run(_, _, _, _)
-\* apply a list of parts to their selections of x and scatter the results back
-Scatter(x, sels, outs) ==
-  [k \in 1..Len(x) |->
-     LET hit == {j \in 1..Len(sels) : \E t \in 1..Len(sels[j]) : sels[j][t] = k - 1}
-     IN IF hit = {} THEN x[k]
-        ELSE LET j == CHOOSE j \in hit : TRUE
-                 t == CHOOSE t \in 1..Len(sels[j]) : sels[j][t] = k - 1
-             IN outs[j][t]]
-\* fold a sequence of parts sequentially (Chain, Scan): dir "f" in order, dir "i" reversed
-RECURSIVE Seq_(_, _, _, _, _)
-Seq_(parts, dir, x, c, i) ==
-  IF i > Len(parts) THEN [v |-> x, ld |-> 0, ok |-> TRUE]
-  ELSE LET q == IF dir = "f" THEN parts[i] ELSE parts[Len(parts) + 1 - i]
-           r == Run(q, dir, x, c)
-           rest == Seq_(parts, dir, r.v, c, i + 1)
-       IN [v |-> rest.v, ld |-> r.ld + rest.ld, ok |-> r.ok /\ rest.ok]
-CondFor(q, c) == c      \* every child receives the whole condition unless stated otherwise
-Run(q, dir, x, c) ==
-  LET n == Len(x) IN
-  CASE q.k = "aff" ->
-         IF dir = "f"
-           THEN [v |-> TLCEval([k \in 1..n |-> Pow2(AffE(q.id, k - 1)) * x[k] + AffB(q.id, k - 1)]),
-                 ld |-> SumSeq([k \in 1..n |-> AffE(q.id, k - 1)]), ok |-> TRUE]
-           ELSE [v |-> TLCEval([k \in 1..n |-> (x[k] - AffB(q.id, k - 1)) \div Pow2(AffE(q.id, k - 1))]),
-                 ld |-> 0 - SumSeq([k \in 1..n |-> AffE(q.id, k - 1)]),
-                 ok |-> \A k \in 1..n : (x[k] - AffB(q.id, k - 1)) % Pow2(AffE(q.id, k - 1)) = 0]
-    [] q.k = "cadd" ->
-         LET add == [k \in 1..n |-> SumSeq([m \in 1..Len(c) |-> CW(q.id, k - 1, m - 1) * c[m]])] IN
-         [v |-> TLCEval([k \in 1..n |-> IF dir = "f" THEN x[k] + add[k] ELSE x[k] - add[k]]), ld |-> 0, ok |-> TRUE]
-    [] q.k = "perm" ->     \* Permute(permutation): y = x[permutation], permutation = rotation by one
-         [v |-> TLCEval([k \in 1..n |-> IF dir = "f" THEN x[(k % n) + 1] ELSE x[((k + n - 2) % n) + 1]]), ld |-> 0, ok |-> TRUE]
-    [] q.k = "flip" -> [v |-> TLCEval([k \in 1..n |-> x[n + 1 - k]]), ld |-> 0, ok |-> TRUE]
-    [] q.k = "ident" -> [v |-> x, ld |-> 0, ok |-> TRUE]
-    [] q.k = "scan" -> Seq_([i \in 1..Len(q.ids) |-> [k |-> "aff", id |-> q.ids[i], shape |-> q.shape]], dir, x, c, 1)
-    [] q.k = "chain" -> Seq_(q.parts, dir, x, c, 1)
-    [] q.k = "invert" -> Run(q.p, IF dir = "f" THEN "i" ELSE "f", x, c)
-    [] q.k = "vmap" ->
-         LET s == SemShape(q)
-             cc == SemCond(q)
-             ic == SemCond(q.p)
-             sels == [i \in 1..q.n |-> SelAxis(s, 1, i - 1, i)]
-             \* parameters mapped: slice i is transformed by its own leaf (id + 10*(i-1)); broadcast: the same leaf
-             child(i) == IF q.mapped THEN [q.p EXCEPT !.id = q.p.id + 10 * (i - 1)] ELSE q.p
-             condOf(i) == IF ic = None \/ q.cax = -9 THEN c
-                          ELSE Gather(c, SelAxis(cc, NormAxis(q.cax, Len(ic) + 1) + 1, i - 1, i))
-             rs == [i \in 1..q.n |-> Run(child(i), dir, Gather(x, sels[i]), condOf(i))]
-         IN [v |-> TLCEval(Scatter(x, sels, [i \in 1..q.n |-> rs[i].v])),
-             ld |-> SumSeq([i \in 1..q.n |-> rs[i].ld]), ok |-> \A i \in 1..q.n : rs[i].ok]
-    [] q.k = "concat" ->
-         LET s == SemShape(q)
-             a == NormAxis(q.axis, Len(s)) + 1
-             lens == [i \in 1..Len(q.parts) |-> SemShape(q.parts[i])[a]]
-             off(i) == SumSeq(SubSeq(lens, 1, i - 1))
-             sels == [i \in 1..Len(q.parts) |-> SelAxis(s, a, off(i), off(i) + lens[i])]
-             rs == [i \in 1..Len(q.parts) |-> Run(q.parts[i], dir, Gather(x, sels[i]), c)]
-         IN [v |-> TLCEval(Scatter(x, sels, [i \in 1..Len(q.parts) |-> rs[i].v])),
-             ld |-> SumSeq([i \in 1..Len(q.parts) |-> rs[i].ld]), ok |-> \A i \in 1..Len(q.parts) : rs[i].ok]
-    [] q.k = "stack" ->
-         LET s == SemShape(q)
-             a == NormAxis(q.axis, Len(s)) + 1
-             sels == [i \in 1..Len(q.parts) |-> SelAxis(s, a, i - 1, i)]
-             rs == [i \in 1..Len(q.parts) |-> Run(q.parts[i], dir, Gather(x, sels[i]), c)]
-         IN [v |-> TLCEval(Scatter(x, sels, [i \in 1..Len(q.parts) |-> rs[i].v])),
-             ld |-> SumSeq([i \in 1..Len(q.parts) |-> rs[i].ld]), ok |-> \A i \in 1..Len(q.parts) : rs[i].ok]
-    [] q.k = "partial" ->
-         LET sel == PartialSel(q.idx, q.shape)
-             r == Run(q.p, dir, Gather(x, sel), c)
-         IN [v |-> TLCEval(Scatter(x, <<sel>>, <<r.v>>)), ld |-> r.ld, ok |-> r.ok]
-    [] q.k = "reshape" -> Run(q.p, dir, x, c)           \* C-order flat data: reshaping only re-presents
-    [] q.k = "embed" ->
-         LET m == Prod(SemCond(q.p))
-             emb == [j \in 1..m |-> SumSeq([r \in 1..Len(c) |-> EmbW(j - 1, r - 1) * c[r]])]
-         IN Run(q.p, dir, x, emb)
-
-\* ---- constructor validity (the incompatibilities the constructors document) ------------------------------------
-RECURSIVE Valid(_)
-CondsAgree(ps) == Cardinality({SemCond(ps[i]) : i \in 1..Len(ps)} \ {None}) <= 1
-Valid(q) ==
-  CASE q.k \in {"aff", "cadd", "perm", "flip", "ident", "scan"} -> TRUE
-    [] q.k = "chain" -> /\ \A i \in 1..Len(q.parts) : Valid(q.parts[i])
-                        /\ \A i \in 1..Len(q.parts) : SemShape(q.parts[i]) = SemShape(q.parts[1])
-                        /\ CondsAgree(q.parts)
-    [] q.k = "invert" -> Valid(q.p)
-    [] q.k = "vmap" -> Valid(q.p)
-    [] q.k = "concat" -> /\ \A i \in 1..Len(q.parts) : Valid(q.parts[i])
-                         /\ LET s1 == SemShape(q.parts[1]) IN
-                            /\ Len(s1) >= 1 /\ -Len(s1) <= q.axis /\ q.axis < Len(s1)
-                            /\ \A i \in 1..Len(q.parts) :
-                                 /\ Len(SemShape(q.parts[i])) = Len(s1)
-                                 /\ RemoveAt(SemShape(q.parts[i]), NormAxis(q.axis, Len(s1)) + 1) = RemoveAt(s1, NormAxis(q.axis, Len(s1)) + 1)
-                         /\ CondsAgree(q.parts)
-    [] q.k = "stack" -> /\ \A i \in 1..Len(q.parts) : Valid(q.parts[i])
-                        /\ \A i \in 1..Len(q.parts) : SemShape(q.parts[i]) = SemShape(q.parts[1])
-                        /\ CondsAgree(q.parts)
-    [] q.k = "partial" -> Valid(q.p) /\ PartialSelShape(q.idx, q.shape) = SemShape(q.p)
-    [] q.k = "reshape" -> /\ Valid(q.p) /\ Prod(q.shape) = Prod(SemShape(q.p))
-                          /\ (q.cs # None => SemCond(q.p) # None /\ Prod(q.cs) = Prod(SemCond(q.p)))
-    [] q.k = "embed" -> Valid(q.p) /\ SemCond(q.p) # None
-
-\* ---- inputs --------------------------------------------------------------------------------------------------------
-XOf(s) == [k \in 1..Prod(s) |-> U * (3 * k + 2)]
-COf(cs) == IF cs = None THEN <<>> ELSE [m \in 1..Prod(cs) |-> U * (2 * m + 1)]
 
 \* merge_chains never changes the function
 RECURSIVE Flatten(_)
